@@ -59,8 +59,42 @@ func caller() string {
 	return fmt.Sprintf("%s:%d", f, l)
 }
 
+// Owned schedules: the Lock calls of one goroutine are counted, and before the n-th of them a function of the harness
+// runs on that goroutine (it can let another request run to completion and come back).
+var (
+	trackG    atomic.Int64 // goroutine whose Lock calls are counted (0: none)
+	trackCnt  atomic.Int64
+	trackAt   atomic.Int64
+	trackFn   atomic.Value // func()
+	noopPause = func() {}
+)
+
+// Track starts counting the Lock calls of the calling goroutine; before the n-th (1-based, 0: never) fn runs once.
+func Track(n int, fn func()) {
+	if fn == nil {
+		fn = noopPause
+	}
+	trackCnt.Store(0)
+	trackAt.Store(int64(n))
+	trackFn.Store(fn)
+	trackG.Store(goid())
+}
+
+// Untrack stops counting and returns the number of Lock calls seen.
+func Untrack() int {
+	trackG.Store(0)
+	return int(trackCnt.Load())
+}
+
 func (m *Mutex) Lock() {
 	g := goid()
+	if tg := trackG.Load(); tg != 0 && tg == g {
+		if c := trackCnt.Add(1); c == trackAt.Load() {
+			if f, ok := trackFn.Load().(func()); ok {
+				f()
+			}
+		}
+	}
 	site := caller()
 	if !m.m.TryLock() {
 		regMu.Lock()
